@@ -209,7 +209,7 @@ OPTIONAL_CHECKS = {"set_position_contract": ["unmapped_rejected", "unmapped_chan
                                              "ram_offset_unchanged"]}
 
 
-QUICK_MUTANTS = 2
+QUICK_MUTANTS = 1
 
 
 def bounded(tier, seed):
